@@ -50,6 +50,9 @@ func (x *Exec) step(f *frame, in ssa.Instruction) {
 			x.critCheck(st, a, in.Pos())
 			x.frameCheck(st, a, in.Pos())
 		}
+		if fa, ok := in.Addr.(*ssa.FieldAddr); ok && a.Kind == aField && v.T != "" {
+			x.plainFieldGhosts(st, fa, a, v.T, in.Val.Type())
+		}
 		x.storeAddr(st, a, v.T)
 		return
 	case *ssa.UnOp:
